@@ -76,9 +76,11 @@ def main(tier: str) -> int:
     # a frame larger than the 1 MiB read chunk of the frame reader, ending in a long literal: cuts inside the later chunks
     big = ("lit", "L" * (1_400_000 if tier == "quick" else 2_300_000), "", "")
     I_ = lambda x: ("iri", x)  # noqa: E731
+    big2 = ("lit", "M" * 1_150_000, "", "")
     big_stmts = [(I_("http://e/s1"), I_("http://e/p"), ("lit", "first", "", "")), (I_("http://e/s2"), I_("http://e/p"), big),
-                 (I_("http://e/s3"), I_("http://e/p"), ("lit", "after", "", ""))]
-    big_data = impl.serialize(impl.default_cfg(integ="generic", entry="flat_to_file", sclass="triple", ltype=1, frame_size=2, preset=(8, 4, 0)), big_stmts)
+                 (I_("http://e/s3"), I_("http://e/p"), ("lit", "between", "", "")), (I_("http://e/s4"), I_("http://e/p"), big2),
+                 (I_("http://e/s5"), I_("http://e/p"), ("lit", "after", "", ""))]
+    big_data = impl.serialize(impl.default_cfg(integ="generic", entry="flat_to_file", sclass="triple", ltype=1, frame_size=1, preset=(8, 4, 0)), big_stmts)
     big_frames = wire.dec_delimited(big_data)
     big_ends = [e for _, _, e in wire.frame_extents(big_data)]
     big_counts = producer.denoting_per_frame(big_frames)
@@ -86,7 +88,9 @@ def main(tier: str) -> int:
     if big_exc is not None:
         run.violation({"clause": "complete-stream-does-not-parse", "integ": "generic", "cut_class": "none"},
                       f"the complete stream with a 1.4 MB frame does not parse: {big_exc}", {"stream": "large-frame"})
+    second = [b for _, b, e in wire.frame_extents(big_data) if e - b > 2**20][-1]
     big_cuts = sorted({c for c in list(range(0, len(big_data), 131_072)) + [2**20 - 1, 2**20, 2**20 + 1, 2**20 + 70_000, len(big_data) - 2, len(big_data) - 1, len(big_data)]
+                       + [second - 1, second, second + 1, second + 5, second + 1000, second + 2**20 - 1, second + 2**20, second + 2**20 + 10, second + 1_100_000]
                        + [e for e in big_ends] + [e - 1 for e in big_ends] if 0 <= c <= len(big_data)})
     big_records = []
     for cut in big_cuts:
